@@ -64,6 +64,9 @@ def _(u):
     pre = u.snapshot(raw)
     u._files = {"data.npz": raw}
     out = u.run(CVRP, "CVRPEnv.load_data", "data.npz", record=False)
+    u.native("cvrp.load_data")   # replay through a real .npz file written from the witness values
+    for k in ("locs", "depot", "demand", "capacity"):
+        u.native_out(k, out[k])
     # demand normalised by the capacity of ITS OWN instance; everything else untouched
     same_tensor(u, "load_data.demand-rowwise", out["demand"], (B, N), lambda b, j: pre["demand"].at(b, j) / pre["capacity"].at(b))
     for k in ("locs", "depot", "capacity"):
